@@ -102,6 +102,7 @@ func c11SchemeScenarios(thorough bool) []sched.Scenario {
 		c11Check(err)
 		m1, m2 := []byte("message one"), []byte("message two, longer")
 		sig1 := sch.Sign(skRef, m1, nil)
+		sig2 := sch.Sign(skRef, m2, nil)
 		deterministic := string(sch.Sign(skRef, m1, nil)) == string(sig1)
 		fresh := func() interface{} {
 			pk, err := sch.UnmarshalBinaryPublicKey(append([]byte{}, pkB...))
@@ -127,7 +128,12 @@ func c11SchemeScenarios(thorough bool) []sched.Scenario {
 			c11Check(err)
 			return b
 		}
+		verify2 := func(sh interface{}) interface{} {
+			s := sh.(*sigShared)
+			return sch.Verify(s.pk, m2, sig2, nil)
+		}
 		scs = append(scs,
+			sched.Scenario{Cost: 40, Name: "sign/" + name + "/Verify||Verify", Setup: fresh, Threads: []func(interface{}) interface{}{verify, verify2}},
 			sched.Scenario{Cost: 40, Name: "sign/" + name + "/Sign||Sign", Setup: fresh, Threads: []func(interface{}) interface{}{signer(m1), signer(m2)}},
 			sched.Scenario{Cost: 40, Name: "sign/" + name + "/Sign||Verify||Public", Setup: fresh, Threads: []func(interface{}) interface{}{signer(m2), verify, pub}})
 	}
